@@ -9,6 +9,7 @@ SCHEMA = f'''<xs:schema {XS} targetNamespace="urn:t" xmlns:t="urn:t" elementForm
       <xs:element name="kind" type="xs:token" fixed="article" minOccurs="0"/>
       <xs:element name="val" minOccurs="0" nillable="true"/>
       <xs:element name="mark" minOccurs="0"><xs:complexType><xs:attribute name="m" type="xs:int"/></xs:complexType></xs:element>
+      <xs:element ref="t:opt" minOccurs="0" maxOccurs="2"/>
       <xs:element name="sub" minOccurs="0" maxOccurs="unbounded"><xs:complexType><xs:sequence>
           <xs:element name="leaf" type="xs:int" minOccurs="0" maxOccurs="3"/></xs:sequence>
           <xs:attribute name="ref" type="xs:IDREF"/><xs:attribute name="codeRef" type="xs:int"/><xs:attribute name="uid" type="xs:int"/></xs:complexType></xs:element>
@@ -19,7 +20,11 @@ SCHEMA = f'''<xs:schema {XS} targetNamespace="urn:t" xmlns:t="urn:t" elementForm
   <xs:key name="K"><xs:selector xpath="t:item"/><xs:field xpath="@code"/></xs:key>
   <xs:keyref name="R" refer="t:K"><xs:selector xpath="t:item/t:sub"/><xs:field xpath="@codeRef"/></xs:keyref>
   <xs:unique name="U"><xs:selector xpath="t:item/t:sub"/><xs:field xpath="@uid"/></xs:unique>
- </xs:element></xs:schema>'''
+ </xs:element>
+ <xs:complexType name="OptT"><xs:sequence><xs:element name="n" type="xs:int" minOccurs="0"/></xs:sequence></xs:complexType>
+ <xs:complexType name="OptX"><xs:complexContent><xs:extension base="t:OptT"><xs:sequence><xs:element name="m" type="xs:int"/></xs:sequence></xs:extension></xs:complexContent></xs:complexType>
+ <xs:element name="opt" type="t:OptT"/><xs:element name="optx" type="t:OptX" substitutionGroup="t:opt"/>
+</xs:schema>'''
 
 
 def schema_for(ver):
